@@ -272,3 +272,172 @@ func isStringT(t types.Type) bool {
 	bt, ok := t.Underlying().(*types.Basic)
 	return ok && bt.Info()&types.IsString != 0
 }
+
+// Every name-map key has a type-map entry (C16.R10).
+//
+// The rewrite pass of the map builder reads `typMap[k]` for the keys k of the
+// name map WITHOUT testing presence (the value is stored again under the
+// rewritten wire name).  That is sound only while keys(nameMap) ⊆
+// keys(typMap): wherever the construction writes `nameMap[K] = …` with a key
+// that is not itself a key read back from the name map, it also writes
+// `typMap[K] = …` under the same key term, in the same block or in one that
+// dominates it.  Otherwise the unchecked look-up yields the nil type for some
+// list type and the type map ends up mapping its wire name to nil (seeded
+// C16l: the type map keyed by wire name only, a custom-named slice type).
+// The clause is claimed only while such an unchecked look-up exists.
+func (w *World) ruleNameKeysHaveTypes(r *Report, rule string, building map[*ssa.Function]bool) {
+	// 1. is there an unchecked look-up of the type map by a key of the name map?
+	unchecked := 0
+	for _, fn := range w.SrcFuncs() {
+		if !building[fn] || fn.Blocks == nil {
+			continue
+		}
+		for _, b := range fn.Blocks {
+			for _, in := range b.Instrs {
+				lk, ok := in.(*ssa.Lookup)
+				if !ok || typeStr(lk.X.Type()) != "map[string]reflect.Type" {
+					continue
+				}
+				okUsed := false
+				if lk.CommaOk {
+					for _, ref := range *lk.Referrers() {
+						if ex, isEx := ref.(*ssa.Extract); isEx && ex.Index == 1 && ex.Referrers() != nil {
+							for _, u := range *ex.Referrers() {
+								if _, dbg := u.(*ssa.DebugRef); !dbg {
+									okUsed = true
+								}
+							}
+						}
+					}
+				}
+				if okUsed {
+					continue
+				}
+				// the key: read back from a name map (range key)
+				if ex, isEx := lk.Index.(*ssa.Extract); isEx && ex.Index == 1 {
+					if nx, isNx := ex.Tuple.(*ssa.Next); isNx {
+						if rg, isRg := nx.Iter.(*ssa.Range); isRg && typeStr(rg.X.Type()) == "map[string]string" {
+							unchecked++
+						}
+					}
+				}
+			}
+		}
+	}
+	if unchecked == 0 {
+		r.note("C16.R10: no unchecked look-up of the type map by a name-map key: clause not needed")
+		return
+	}
+	n := 0
+	for _, fn := range w.SrcFuncs() {
+		if !building[fn] || fn.Blocks == nil {
+			continue
+		}
+		f := w.flow(fn)
+		var nameUpd, typUpd []*ssa.MapUpdate
+		for _, b := range fn.Blocks {
+			for _, in := range b.Instrs {
+				if mu, ok := in.(*ssa.MapUpdate); ok {
+					switch typeStr(mu.Map.Type()) {
+					case "map[string]string":
+						nameUpd = append(nameUpd, mu)
+					case "map[string]reflect.Type":
+						typUpd = append(typUpd, mu)
+					}
+				}
+			}
+		}
+		for i, nu := range nameUpd {
+			// a key read back from the name map is already there
+			if ex, isEx := nu.Key.(*ssa.Extract); isEx && ex.Index == 1 {
+				if nx, isNx := ex.Tuple.(*ssa.Next); isNx {
+					if rg, isRg := nx.Iter.(*ssa.Range); isRg && typeStr(rg.X.Type()) == "map[string]string" {
+						continue
+					}
+				}
+			}
+			n++
+			kk := f.term(nu.Key).Key()
+			ok := false
+			for _, tu := range typUpd {
+				if f.term(tu.Key).Key() == kk && (tu.Block() == nu.Block() || tu.Block().Dominates(nu.Block())) {
+					ok = true
+				}
+			}
+			r.add(rule, fmt.Sprintf("%s · nameMap key #%d", fnName(fn), i+1), w.instrPos(nu), ok, map[bool]string{
+				true:  fmt.Sprintf("key %s: a typMap entry under the same key term is written in the same or a dominating block", kk),
+				false: fmt.Sprintf("key %s enters the name map without a typMap entry under the same key on this path, while the rewrite pass reads typMap[key] for every name-map key without testing presence: the nil type is stored under the rewritten wire name", kk)}[ok])
+		}
+	}
+	r.floor(rule+" (name-map keys)", n, 2)
+}
+
+// A descent by type goes to the IMMEDIATE element type (C16.R2c).
+//
+// When a container has no element to look at, the walk goes on with
+// reflect.New of its element (or key) type.  The closure property needs every
+// list type on the way to be visited: for an empty `[][]T` the next stop is
+// `[]T`, not `T`.  The type handed to reflect.New may therefore have its
+// POINTERS taken off (the walk unwraps them anyway) but no list or map
+// dimension: an in-package reflect.Type→reflect.Type helper applied to it
+// must not compare a Kind() with Array, Slice or Map (a helper that does
+// strips dimensions, and the intermediate list types of an empty slice of
+// slices are never registered — seeded C16n).
+func (w *World) ruleZeroDescentImmediate(r *Report, rule string, vw *valueWalk) {
+	n := 0
+	containerKinds := map[int64]string{17: "Array", 21: "Map", 23: "Slice"}
+	stripsDims := func(fn *ssa.Function) (string, bool) {
+		seen := map[*ssa.Function]bool{}
+		var visit func(f *ssa.Function, depth int) (string, bool)
+		visit = func(f *ssa.Function, depth int) (string, bool) {
+			if f == nil || f.Blocks == nil || seen[f] || depth > 2 || f.Pkg != w.Pkg {
+				return "", false
+			}
+			seen[f] = true
+			for _, b := range f.Blocks {
+				for _, in := range b.Instrs {
+					switch x := in.(type) {
+					case *ssa.BinOp:
+						for _, pair := range [][2]ssa.Value{{x.X, x.Y}, {x.Y, x.X}} {
+							c, isC := pair[1].(*ssa.Const)
+							if !isC || c.Value == nil || typeStr(pair[0].Type()) != "reflect.Kind" {
+								continue
+							}
+							if k, ok := containerKinds[c.Int64()]; ok {
+								return k, true
+							}
+						}
+					case *ssa.Call:
+						if k, ok := visit(x.Call.StaticCallee(), depth+1); ok {
+							return k, true
+						}
+					}
+				}
+			}
+			return "", false
+		}
+		return visit(fn, 0)
+	}
+	for _, g := range vw.fns {
+		for _, c := range vw.zeroDescents(g) {
+			for _, a := range c.Call.Args {
+				nc, ok := a.(*ssa.Call)
+				if !ok || nc.Call.StaticCallee() == nil || qualifiedFnName(nc.Call.StaticCallee()) != "reflect.New" || len(nc.Call.Args) != 1 {
+					continue
+				}
+				n++
+				good, fact := true, "the type handed to reflect.New is the container's element / key type, with at most its pointers taken off"
+				if tc, isCall := nc.Call.Args[0].(*ssa.Call); isCall {
+					if h := tc.Call.StaticCallee(); h != nil && h.Pkg == w.Pkg {
+						if k, strips := stripsDims(h); strips {
+							good = false
+							fact = fmt.Sprintf("the type handed to reflect.New goes through %s, which tests Kind() against reflect.%s: it takes list / map dimensions off, so for an empty container of containers the intermediate container types are never visited and are missing from both maps", fnName(h), k)
+						}
+					}
+				}
+				r.add(rule, fmt.Sprintf("%s · descent by type #%d", fnName(g), n), w.instrPos(c), good, fact)
+			}
+		}
+	}
+	r.floor(rule+" (descents by type)", n, 1)
+}
